@@ -293,7 +293,12 @@ class ComponentContext(Context):
 
         try:
             return await self._context.get_resource(type, name)
-        except ResourceNotFound:
+        except ResourceNotFound as exc:
+            # Only wait if it was the requested resource that could not be found – not
+            # when a resource factory failed to find one of its own dependencies
+            if exc.type is not type or exc.name != name:
+                raise
+
             logger.debug(
                 "%s is waiting for another component to provide a resource (%s)",
                 format_component_name(self.path, capitalize=True),
